@@ -196,6 +196,39 @@ func zzH_C05_across_blocks() {
 	zzverif.Reach("end")
 }
 
+// zzH_C05_list_position: a real equivocation evidence is acted on wherever it stands in the
+// list a block carries: entries of other (unknown, retired) types before or after it change
+// nothing.
+//
+//verif:replace $M/staking.doPenalize zzC05CountPenalty
+func zzH_C05_list_position() {
+	zzC05Penalties = 0
+	st, s, cfg, header, _ := zzC05Setup(2)
+	zzC05Honest = false
+	zzverif.Assume(zzC05Ev.Signs[0].Hash != zzC05Ev.Signs[1].Hash && zzC05Ev.SignerIdx == 0)
+	zzverif.Assume(zzC05Ev.Round < 200)
+	real := Evidence{Type: EvidenceTypeDoubleSignV5, Data: []byte{1}}
+	other := func() Evidence {
+		return Evidence{Type: []string{EvidenceTypeInactive, EvidenceTypeDoubleSign, "something-else"}[zzverif.Choose("otherEntry.type", 3)], Data: []byte{2}}
+	}
+	var list []Evidence
+	for i, before := 0, zzverif.Choose("entriesBefore", 3); i < before; i++ {
+		list = append(list, other())
+	}
+	list = append(list, real)
+	if zzverif.Bool("entryAfter") {
+		list = append(list, other())
+	}
+	twin := s.Copy() // the same situation, for the evidence alone
+	st.processEvidences(cfg, s, header, new(big.Int).SetUint64(zzC05Ev.Round), &types.Receipt{}, list)
+	alone := zzC05Penalties
+	zzverif.Reach("processed")
+	zzC05Penalties = 0
+	st.processEvidences(cfg, twin, header, new(big.Int).SetUint64(zzC05Ev.Round), &types.Receipt{}, []Evidence{real})
+	zzverif.Assert(alone == zzC05Penalties, "an evidence is acted on the same way wherever it stands in the list")
+	zzverif.Reach("end")
+}
+
 // zzH_C05_equivocation: two different hashes really signed for one round/index at the
 // parent height penalise the signer once, within the configured fraction, and a second
 // evidence against the same signer changes nothing.
